@@ -80,3 +80,21 @@ pub fn snapshot_summary(d: &[u8]) -> String {
     }
     format!("ver={} [{}]{}", ver, es.join(";"), if off == d.len() { "" } else { " trailing" })
 }
+
+/// (offset, version, payload length) of every complete record with a valid checksum, in file order
+pub fn record_offsets(d: &[u8]) -> Vec<(usize, u64, usize)> {
+    let mut off = 0usize;
+    let mut out = vec![];
+    loop {
+        let rem = d.len() - off;
+        if rem < 44 { break; }
+        let ver = u64le(&d[off..]);
+        let len = u32le(&d[off + 40..]) as usize;
+        if ver == 0 || len == 0 || rem - 44 < len { break; }
+        if blake3::hash(&d[off + 44..off + 44 + len]).as_bytes() != &d[off + 8..off + 40] { break; }
+        out.push((off, ver, len));
+        off += 44 + len;
+    }
+    out
+}
+pub fn snapshot_version(d: &[u8]) -> u64 { if d.len() >= 8 { u64le(d) } else { 0 } }
